@@ -5,6 +5,7 @@ package sod
 import (
 	"math"
 	"reflect"
+	"sync"
 )
 
 // Library-model validation: the engine answers calls into reflect and math
@@ -110,6 +111,16 @@ func VH_LIB_reflect() {
 		vAssert("lib.reflect.type_fieldbyname", ok && sf.Name == "F" && sf.Type.Kind() == reflect.Float32 && sf.Index[0] == 2)
 		_, ok = t.FieldByName("Nope")
 		vAssert("lib.reflect.type_fieldbyname_absent", !ok)
+		// promoted through an embedded struct: the index is the whole path
+		pf, ok := reflect.TypeOf(vObj{}).FieldByName("uuid")
+		vAssert("lib.reflect.type_fieldbyname_promoted", ok && len(pf.Index) == 2 && pf.Index[0] == 0 && pf.PkgPath == "github.com/0xrawsec/sod")
+		an := reflect.TypeOf(struct {
+			Src struct{ Port, Pid int }
+			Dst struct{ Pid, Port int }
+		}{})
+		a, _ := an.Field(0).Type.FieldByName("Port")
+		b, _ := an.Field(1).Type.FieldByName("Port")
+		vAssert("lib.reflect.anonymous_types", a.Index[0] == 0 && b.Index[0] == 1 && an.Field(0).Type.Name() == "" && an.Field(0).Type.PkgPath() == "")
 	case 7: // Value.Comparable
 		vAssert("lib.reflect.value_comparable", !v.Comparable() && v.FieldByName("In").Comparable() && v.FieldByName("I").Comparable())
 		s.I = []int{1}
@@ -166,4 +177,45 @@ func VH_LIB_math() {
 		vAssert("lib.math.bits32_roundtrip", g == f || (f != f && g != g))
 		vAssert("lib.math.zero_bits", vImplies(b == 0, x == 0) && vImplies(b == 1<<63, x == 0))
 	}
+}
+
+var vLibMap sync.Map
+
+// VH_LIB_syncmap: sync.Map as a package-level cache (keys of several kinds).
+func VH_LIB_syncmap() {
+	var m sync.Map
+	x := vInt64("x")
+	_, ok := m.Load("a")
+	vAssert("lib.syncmap.empty", !ok)
+	m.Store("a", x)
+	m.Store(reflect.TypeOf(vLibIn{}), "type-key")
+	m.Store(7, "int-key")
+	v, ok := m.Load("a")
+	vAssert("lib.syncmap.load", ok && v.(int64) == x)
+	v, ok = m.Load(reflect.TypeOf(vLibIn{}))
+	vAssert("lib.syncmap.type_key", ok && v.(string) == "type-key")
+	_, ok = m.Load(reflect.TypeOf(vLibS{}))
+	vAssert("lib.syncmap.other_type_key", !ok)
+	_, ok = m.Load(int64(7))
+	vAssert("lib.syncmap.key_kind_matters", !ok)
+	act, loaded := m.LoadOrStore("a", int64(5))
+	vAssert("lib.syncmap.loadorstore_present", loaded && act.(int64) == x)
+	act, loaded = m.LoadOrStore("b", int64(5))
+	vAssert("lib.syncmap.loadorstore_absent", !loaded && act.(int64) == 5)
+	n := 0
+	m.Range(func(k, v interface{}) bool { n++; return true })
+	vAssert("lib.syncmap.range", n == 4)
+	n = 0
+	m.Range(func(k, v interface{}) bool { n++; return false })
+	vAssert("lib.syncmap.range_stop", n == 1)
+	m.Delete("a")
+	_, ok = m.Load("a")
+	vAssert("lib.syncmap.delete", !ok)
+	old, had := m.LoadAndDelete("b")
+	vAssert("lib.syncmap.loadanddelete", had && old.(int64) == 5)
+	// a package-level map is shared by everything in the process
+	vLibMap.Store("k", x)
+	g, ok := vLibMap.Load("k")
+	vAssert("lib.syncmap.global", ok && g.(int64) == x)
+	vLibMap.Delete("k")
 }
